@@ -14,6 +14,11 @@
 
 package redis
 
+import "time"
+
+// tlsHandshakeTimeout is the time a client gets to complete its TLS handshake.
+const tlsHandshakeTimeout = 10 * time.Second
+
 const (
 	// PackageName is the package name.
 	PackageName = "go-redis"
